@@ -1,6 +1,8 @@
 package main
 
 import (
+	"go.uber.org/zap"
+	"bytes"
 	"context"
 	"encoding/json"
 	"fmt"
@@ -74,6 +76,24 @@ func checkC18(c *Ctx) {
 	for _, m := range shMutants {
 		c.MustTLC(TLCOpts{Module: "SlogHandler", Cfg: "SlogHandler.check", Consts: m, ExpectViolation: true})
 	}
+	// the core's enabler is live: thresholds, AtomicLevels moved at run time, arbitrary sets
+	nlive := 0
+	c.MustTLC(TLCOpts{Module: "StackLevels", Cfg: "StackLevels.check", Gen: true, Consts: map[string]string{"Emit": "TRUE", "MaxSteps": fmt.Sprint(c.Pick(3, 4))}, OnBeh: func(raw json.RawMessage) {
+		var b slBeh
+		if err := json.Unmarshal(raw, &b); err != nil {
+			c.Inconclusive("bad StackLevels behaviour: %v", err)
+			return
+		}
+		nlive++
+		if b.Kind != "set" && len(b.En0) == 0 {
+			return
+		}
+		for _, f := range replaySlogLive(b, nlive) {
+			c.Violation(f.Key, f.What, map[string]interface{}{"mode": "live-enabler", "beh": b})
+		}
+		c.Add("traces_validated_against_impl", 1)
+	}})
+	c.Set("live_enabler_histories", int64(nlive))
 	gens := []map[string]string{{"Emit": "TRUE", "MaxAttrsDerive": "1"}, {"Emit": "TRUE", "MaxHandlers": "3"}}
 	if c.Thorough() {
 		gens = []map[string]string{{"Emit": "TRUE"}}
@@ -256,6 +276,11 @@ func replaySlog(b shBeh, seed int64) (finds []Finding) {
 	}()
 	sink := &jeSink{}
 	core := zapcore.NewCore(zapcore.NewJSONEncoder(zapcore.EncoderConfig{SkipLineEnding: true}), sink, zapcore.DebugLevel)
+	// one run in three goes through the console encoder, whose context is the same JSON object with spaces
+	console := (seed>>2)%3 == 0
+	if console {
+		core = zapcore.NewCore(zapcore.NewConsoleEncoder(zapcore.EncoderConfig{SkipLineEnding: true}), sink, zapcore.DebugLevel)
+	}
 	// the root handler may already carry pending groups of its own (a concretisation of "some handler")
 	npre := rng.Intn(4)
 	var root slog.Handler = zapslog.NewHandler(core)
@@ -302,7 +327,17 @@ func replaySlog(b shBeh, seed int64) (finds []Finding) {
 			return
 		}
 		got := string(sink.writes[0])
-		if err := strictJSONObjectLine(sink.writes[0], ""); err != nil {
+		if console {
+			what += " (console-encoded core)"
+			if got == "" && exp == "{}" {
+				return // no fields: the console encoder prints no context at all
+			}
+			var cb bytes.Buffer
+			if err := json.Compact(&cb, sink.writes[0]); err == nil {
+				got = cb.String()
+			}
+		}
+		if err := strictJSONObjectLine([]byte(got), ""); err != nil {
 			add("C18/tree-differs:invalid-json", "%s: %v: %q (ops %+v)", what, err, got, b.Hist)
 			return
 		}
@@ -406,6 +441,61 @@ func replaySlogLevels(levelMap []int) (finds []Finding) {
 					}
 				}
 			}
+		}
+	}
+	return finds
+}
+
+// replaySlogLive: "a record is handled if and only if the core enables the mapped level" - the core's enabler is
+// consulted per record (StackLevels.tla histories: a threshold, an AtomicLevel moved at run time, an arbitrary
+// set), through the handler itself and through handlers derived before and after the changes.
+func replaySlogLive(b slBeh, variant int) (finds []Finding) {
+	add := func(key, f string, a ...interface{}) {
+		if len(finds) < 4 {
+			finds = append(finds, Finding{Key: key, What: fmt.Sprintf(f, a...) + fmt.Sprintf(" [core enabler kind %s, initially enabling %v, history %v]", b.Kind, b.En0, b.H)})
+		}
+	}
+	conc := func(l int) zapcore.Level { return zapcore.Level(l - 1) } // 0..3 -> debug..error
+	slogOf := map[zapcore.Level]slog.Level{zapcore.DebugLevel: slog.LevelDebug, zapcore.InfoLevel: slog.LevelInfo, zapcore.WarnLevel: slog.LevelWarn, zapcore.ErrorLevel: slog.LevelError}
+	var en zapcore.LevelEnabler
+	var atom zap.AtomicLevel
+	switch b.Kind {
+	case "threshold":
+		en = conc(b.En0[0])
+	case "atomic":
+		atom = zap.NewAtomicLevelAt(conc(b.En0[0]))
+		en = atom
+	case "set":
+		set := map[zapcore.Level]bool{}
+		for _, l := range b.En0 {
+			set[conc(l)] = true
+		}
+		en = zap.LevelEnablerFunc(func(l zapcore.Level) bool { return set[l] })
+	}
+	sink := &jeSink{}
+	core := zapcore.NewCore(zapcore.NewJSONEncoder(zapcore.EncoderConfig{LevelKey: "l", EncodeLevel: zapcore.LowercaseLevelEncoder, SkipLineEnding: true}), sink, en)
+	root := zapslog.NewHandler(core)
+	hs := []slog.Handler{root, root.WithAttrs([]slog.Attr{slog.Int("a", 1)}), root.WithGroup("g"), root.WithGroup("g").WithAttrs([]slog.Attr{slog.Int("a", 1)})}
+	for i, st := range b.H {
+		if st.Op == "set" {
+			atom.SetLevel(conc(st.Lvl))
+			continue
+		}
+		h := hs[(i+variant)%len(hs)]
+		lvl := slogOf[conc(st.Lvl)]
+		if got := h.Enabled(context.Background(), lvl); got != st.Attach {
+			add("C18/enabled-differs", "step %d: Enabled(%v) = %v, the core's enabler says %v at that moment", i, lvl, got, st.Attach)
+		}
+		sink.writes = nil
+		if (i+variant)%2 == 0 {
+			r := slog.NewRecord(time.Time{}, lvl, "m", 0)
+			r.AddAttrs(slog.Int("k", 1))
+			h.Handle(context.Background(), r)
+		} else {
+			slog.New(h).Log(context.Background(), lvl, "m", "k", 1)
+		}
+		if (len(sink.writes) == 1) != st.Attach {
+			add("C18/handled-differs", "step %d: record at %v: %d entries written, the core's enabler says enabled=%v at that moment", i, lvl, len(sink.writes), st.Attach)
 		}
 	}
 	return finds
